@@ -119,7 +119,15 @@ def drive_validate(wd, drivebin, behs):
 def run(tier, wd, drivebin, nrandom=None):
     rng = random.Random(seed() * 37 + 11)
     behs = behaviours(rng, nrandom if nrandom is not None else (60 if tier == "quick" else 1500))
-    return drive_validate(wd, drivebin, behs) + (len(behs),)
+    violations, nev, acts = drive_validate(wd, drivebin, behs)
+    if violations:
+        # the endpoints are real HTTP servers and the service gives a POST five seconds: on an overloaded machine a
+        # message can be late. A verdict needs the offending behaviour to fail again on its own.
+        again, _, _ = drive_validate(os.path.join(wd, "confirm"), drivebin, [violations[0]["behaviour"]])
+        if not again:
+            raise Inconclusive("webhook behaviour %s was not explained by Webhooks.tla in the full run but is on its own "
+                               "(load average %.0f): not reproduced, no verdict" % (violations[0]["behaviour"]["id"], os.getloadavg()[0]))
+    return violations, nev, acts, len(behs)
 
 
 def check(prop, tier):
